@@ -121,7 +121,7 @@ def rule_every_region_pushed(ctx):
             if item is None:
                 continue
             src = strip(item[0][2][0])
-            iter_ok = src[0] == "field" and src[2] == "app_memory" and root(src[1]) == ("param", 1)
+            iter_ok = any(s_[0] == "field" and s_[2] == "app_memory" and root(s_[1]) == ("param", 1) for s_ in walk(src)) and item[1][0] == "LenOf"
             # body entry = Some-successor of the next() switch
             nb = [x for x in loops[h] if b.term(x)["k"] == "call" and CalleeView(b.term(x)["callee"]).short == "std::iter::Iterator::next"][0]
             sw = b.term(nb)["t"]
@@ -166,7 +166,7 @@ def rule_ip_window(ctx):
     src = strip(item[0][2][0]) if item else ("?",)
     ctx.check(src[0] == "field" and src[2] == "mappings", R, "over-mappings", b.where(h), "the search ranges over dumper.mappings", "the search ranges over %s" % show(src)[:80])
     # selection predicate relative to the mapping loop header
-    dnf = conditions(b, pb, origin=o, entry=h, relevant=lambda a_: a_[0] == "bin" and a_[1] in ("Lt", "Le", "Gt", "Ge"))
+    dnf = conditions(b, pb, origin=o, entry=h, relevant=ipe.is_cmp_atom)
     ip = None
     st = sz = None
     for c in dnf or []:
@@ -186,7 +186,7 @@ def rule_ip_window(ctx):
                 if x < 0 or x > ipe.M64:
                     continue
                 def rw(a_):
-                    return ("bin", a_[1], core(a_[2]), core(a_[3]), "usize")
+                    return ("bin", a_[1], core(a_[2]), core(a_[3]), "usize") if a_[0] == "bin" else a_
                 try:
                     ev = ipe.Eval({ip: x, st: l, sz: size})
                     got = any(all(ev.lit(rw(a_), v) for (a_, v) in c) for c in dnf)
